@@ -17,6 +17,7 @@ DOMAIN = [
     {"size": 4096, "depth": "deep", "height": None, "is_leaf": 0},   # instance attributes named like read-only properties
 ]
 BOOK = ("_NodeMixin__children", "_NodeMixin__parent")
+MIXIN_PRIVATE = ("_NodeMixin__", "_LightNodeMixin__")   # name-mangled attributes of the mixins: bookkeeping, never user data
 
 
 def attriters():
@@ -228,6 +229,18 @@ def real_tree(node):
     return ({k: v for k, v in vars(node).items() if k not in BOOK}, [real_tree(c) for c in node.children])
 
 
+def nav_of_node(node):
+    return ((node.size, node.height, node.depth, len(node.leaves), len(node.descendants), node.is_leaf), [nav_of_node(c) for c in node.children])
+
+
+def nav_of_dict(d, depth):
+    kids = [nav_of_dict(c, depth + 1) for c in d.get("children", [])]
+    size = 1 + sum(k[0][0] for k in kids)
+    height = 1 + max(k[0][1] for k in kids) if kids else 0
+    leaves = sum(k[0][3] for k in kids) if kids else 1
+    return ((size, height, depth, leaves, size - 1, not kids), kids)
+
+
 def add_empty_children(d):
     d = dict(d)
     if "children" in d:
@@ -249,8 +262,13 @@ def check_tree(t, shape, assign, kinds=("anynode", "node", "user"), only=None):
             attrs = [dict({"name": "n%d" % i}, **{k: v for k, v in a.items() if k != "name"}) for i, a in enumerate(attrs)]
         nodes = mk_tree(m, attrs, kind)
         idm = tree.IdMap(nodes)
-        # what the exporter must see: vars() of the live node in insertion order
-        live = [{k: v for k, v in vars(nd).items() if k not in BOOK} for nd in nodes]
+        if sum(assign) % 2 == 0:
+            # every navigation property has been read before the export (whatever the mixin remembers is in place)
+            for nd in nodes:
+                (nd.size, nd.height, nd.depth, nd.path, nd.root, nd.leaves, nd.descendants, nd.ancestors, nd.siblings, nd.is_leaf, nd.is_root)
+            t.c["exports_after_navigation_reads"] += 1
+        # what the exporter must see: vars() of the live node in insertion order, without the mixin's own bookkeeping
+        live = [{k: v for k, v in vars(nd).items() if not k.startswith(MIXIN_PRIVATE)} for nd in nodes]
         snap = tree_snapshot(nodes, idm)
         # ONE exporter object constructed with other settings, used once, and re-configured through its public attributes
         # before every call: must behave like a freshly constructed exporter with these settings
@@ -299,7 +317,8 @@ def check_tree(t, shape, assign, kinds=("anynode", "node", "user"), only=None):
             check_reuse_after_callback_fault(t, m, nodes, live, shape, assign, kind)
         # import side -----------------------------------------------------------------------
         d = DictExporter().export(nodes[0])
-        for variant, dd in (("exported", d), ("with empty children lists", add_empty_children(d))):
+        dcut = DictExporter(maxlevel=2).export(nodes[0])
+        for variant, dd in (("exported", d), ("with empty children lists", add_empty_children(d)), ("exported with maxlevel=2", dcut)):
             for nodecls_name in ("anynode", "node", "user", "container", "anyhook"):
                 if nodecls_name == "node" and kind != "node":
                     continue  # Node needs a name in every dictionary
@@ -324,11 +343,13 @@ def check_tree(t, shape, assign, kinds=("anynode", "node", "user"), only=None):
                     why = "imported nodes are not nodecls instances"
                 elif root.parent is not None:
                     why = "imported root has a parent"
+                elif nav_of_node(root) != nav_of_dict(before, 0):
+                    why = "size / height / depth / leaves of the imported nodes do not follow from the imported links"
                 else:
                     back = DictExporter().export(root)
-                    if back != d:
+                    if back != (dcut if variant.endswith("maxlevel=2") else d):
                         why = "export(import_(d)) differs from d (up to empty children lists)"
-                    if real_tree(root) != real_tree(nodes[0]):
+                    if real_tree(root) != real_tree(nodes[0]) and not variant.endswith("maxlevel=2"):
                         why = "import_(export(t)) is not isomorphic to t"
                 if why:
                     t.violation("C10: " + why, {"engine": "E2", "module": MOD, "shape": shape, "assign": list(assign), "kind": kind,
@@ -389,5 +410,5 @@ def run(tier):
                 "arguments unmodified; non-trivial = exported subtree has more than one node" % (npart, nfull),
         "bounds": {"full_assignments_upto": nfull, "max_nodes": npart, "trees": len(items)},
     }
-    return {"tally": t, "coverage": cov, "guards": ("positional_calls", "reconfigured_exports", "nontrivial", "maxlevel_cuts", "imports", "exports_after_callback_fault"),
+    return {"tally": t, "coverage": cov, "guards": ("exports_after_navigation_reads", "positional_calls", "reconfigured_exports", "nontrivial", "maxlevel_cuts", "imports", "exports_after_callback_fault"),
             "assumptions": ["attribute values from a 5-element domain; node classes with an instance __dict__"]}
